@@ -105,17 +105,13 @@ def c02Er : Handler := fun c => do
   let hypT ← field c "hyp" >>= mat
   let refCols := toColumns bf N refT 0
   let hypCols := toColumns bf N hypT 0
-  let H := match hypCols with
-    | col :: _ => col.length
-    | [] => 0
   let flags := objJ [("shortcut", boolJ (useShortcut cfg.costs))]
   if kind == "scalar" then
-    let model := List.zipWith (errorRateCol cfg) refCols hypCols
+    let model := errorRateBatch cfg bf N refT hypT 0
     let spec ← (List.zip refCols hypCols).mapM (fun (r, h) => specScalar cfg bruteMax r h)
     pure (objJ [("model", listJ ratToJson model), ("spec", Json.arr spec.toArray), ("flags", flags)])
   else
-    let cols := List.zipWith (prefixErrorRatesCol cfg) refCols hypCols
-    let model := fromColumns bf (prefixRows H cfg.excludeLast) cols
+    let model := prefixErrorRatesBatch cfg bf N refT hypT 0
     let spec ← (List.zip refCols hypCols).mapM (fun (r, h) => specPrefix cfg bruteMax r h)
     pure (objJ [("model", listJ (listJ ratToJson) model), ("spec", Json.arr spec.toArray),
                 ("flags", flags)])
@@ -169,4 +165,22 @@ def c02Mer : Handler := fun c => do
   pure (objJ [("model", model), ("spec", Json.arr spec.toArray),
               ("flags", objJ [("shortcut", boolJ (useShortcut cfg.costs))])])
 
-def main : IO Unit := Proto.run [("c02.er", c02Er), ("c02.mer", c02Mer)]
+/-- case: {what: "pair"|"mer", batch_first, ref: [shape], hyp: [shape], lp: [shape], reduction}.
+Reply: accepted (bool) and the dimensions the model reads off. -/
+def c02Shapes : Handler := fun c => do
+  let what ← getStr c "what"
+  let bf ← getBool c "batch_first"
+  let ref ← getList jsonToNat c "ref"
+  let hyp ← getList jsonToNat c "hyp"
+  if what == "pair" then
+    match checkPairShapes bf ref hyp with
+    | some (n, r, h) => pure (objJ [("accepted", boolJ true), ("dims", listJ natJ [n, r, h])])
+    | none => pure (objJ [("accepted", boolJ false)])
+  else
+    let lp ← getList jsonToNat c "lp"
+    let red ← getStr c "reduction"
+    match checkMerShapes bf lp ref hyp red with
+    | some (n, m, r, h) => pure (objJ [("accepted", boolJ true), ("dims", listJ natJ [n, m, r, h])])
+    | none => pure (objJ [("accepted", boolJ false)])
+
+def main : IO Unit := Proto.run [("c02.er", c02Er), ("c02.mer", c02Mer), ("c02.shapes", c02Shapes)]
